@@ -258,7 +258,7 @@ EXTRA = {
     'C33': 'R33.3: every literal word that tools/matchcompiler.py::tokTypes types eKeyword is a keyword (TokenList::isKeyword) under every C and C++ standard Keywords::getAll can return '
            '(keyword sets of lib/keywords.cpp after preprocessing, exclusion sets of isKeyword from the AST); one tabled word (inline) with a condition checked on every run. '
            'R33.4: for every punctuation string of tokTypes, every token type the else-if chain of Token::update_property_info assigns on a path feasible for that constant string '
-           '(partial evaluation of the AST, mLink both ways for bracket characters) is listed in the table.',
+           '(partial evaluation of the AST, mLink both ways for bracket characters) is listed in the table. R33.5: the same for the eBoolean words, with and without a variable id.',
     'C05': 'R05.2: token lists are rendered with line breaks / line numbers / file names only by the printers of the Token class. R05.3: a token line is compared with a '
            'non-token line (directive, suppression) only together with a same-file test.',
     'C10': 'R10.4: the CHAR_MIN / CHAR_MAX limit defines follow the plain-char signedness (one known finding).',
